@@ -10,7 +10,7 @@ import vlib, e2e, sync_e2e
 from sync_e2e import T0
 
 THEOREMS = ['C01_mirror', 'C01_mirror_executable', 'C01_link_text', 'C01_utf8_text_is_in_domain', 'C01_table', 'C01_mirror_unconditional', 'C01_mirror_walked', 'C01_walked_listing_exists',
-            'C01_spec_each_sync_mirrors', 'C01_spec_final_trees', 'C01_spec_stores_well_formed', 'C01_mirror_keeps_times_set', 'C01_spec_chain_mirrors', 'C01_run_keeps_links_utf8']
+            'C01_spec_each_sync_mirrors', 'C01_spec_final_trees', 'C01_spec_stores_well_formed', 'C01_mirror_keeps_times_set', 'C01_spec_chain_mirrors', 'C01_run_keeps_links_utf8', 'C01_file_lands_under_its_own_name']
 
 
 def components(text):
@@ -168,6 +168,72 @@ def run_table(run, binary, base):
                 shutil.rmtree(root, ignore_errors=True)
 
 
+ODD_ROOT_NAMES = [b'a\\b', b'x\\..', b'..\\x', b'x\\.', b'a\\\\b', b'\\..', b'sp ace', b'-dash', b'..a', b'a..', b'.hidden',
+                  'n\u00fc'.encode(), b'c\\d\\e']
+
+
+def run_inside_names(run, binary, base, prop='C01'):
+    """A file or symlink source with a trailing-slash destination lands INSIDE that folder under its own file name
+    (docs/notes.md table) - also when that name contains characters that are separators on another platform
+    (a backslash on a Unix source), dots, or both.  Oracle: the object appears at DEST/<name> and nowhere else, the
+    siblings of the destination and what else is in it are untouched, exit 0.  Names ENDING in a backslash are left out: a path
+    spelled with a trailing backslash is taken as spelled with a trailing slash on every platform (validate_trailing_slash) and is
+    rejected for a file before anything is touched - a limitation, not a violation of a listed property.  (F14: the name was taken after the last
+    backslash; 'x\\..' made the destination root DEST/.. and emptied the parent folder.)"""
+    ssh = e2e.fake_ssh_dir(base)
+    for name in ODD_ROOT_NAMES:
+        for sk in ('file', 'link'):
+            for dest_exists in (True, False):
+                for placement in ('LL', 'RL'):
+                    if placement == 'RL' and not (sk == 'file' and dest_exists):
+                        continue
+                    root = tempfile.mkdtemp(prefix='odd_', dir=base).encode()
+                    try:
+                        os.mkdir(os.path.join(root, b's'))
+                        os.makedirs(os.path.join(root, b'box', b'sibling'))
+                        open(os.path.join(root, b'box', b'sibling', b'keep'), 'w').write('keep')
+                        open(os.path.join(root, b'boxfile'), 'w').write('bf')
+                        if dest_exists:
+                            os.mkdir(os.path.join(root, b'box', b'dest'))
+                            open(os.path.join(root, b'box', b'dest', b'old'), 'w').write('old')
+                        sp = os.path.join(root, b's', name)
+                        if sk == 'file':
+                            open(sp, 'wb').write(b'DATA-' + name)
+                            os.utime(sp, ns=(T0, T0 + 5))
+                        else:
+                            os.symlink(b'../boxfile', sp)
+                        dp = os.path.join(root, b'box', b'dest') + b'/'
+                        before = e2e.snapshot(os.path.join(root, b'box').decode('utf-8', 'surrogateescape'))
+                        src_before = e2e.snapshot(os.path.join(root, b's').decode('utf-8', 'surrogateescape'))
+                        args = [os.fsdecode((b'localhost:' if placement == 'RL' else b'') + sp), os.fsdecode(dp), '--dest-root-needs-deleting', 'delete', '--dest-entry-needs-deleting', 'delete']
+                        r = e2e.run_cli(binary, args, timeout=60, fake_ssh=ssh if placement != 'LL' else None)
+                        after = e2e.snapshot(os.path.join(root, b'box').decode('utf-8', 'surrogateescape'))
+                        run.count('inside-names')
+                        run.case(('inside-name', name.hex(), sk, dest_exists, placement), True)
+                        want = dict(before)
+                        if not dest_exists:
+                            want['dest'] = ('dir',)
+                        rel = 'dest/' + os.fsdecode(name)
+                        want[rel] = e2e.snapshot(os.fsdecode(sp))['']
+                        bad = None
+                        if e2e.snapshot(os.path.join(root, b's').decode('utf-8', 'surrogateescape')) != src_before:
+                            bad = 'the source changed'
+                        elif r['exit'] != 0:
+                            if after != before and after != dict(before, dest=('dir',)):
+                                bad = 'exit %s and the surroundings of the destination changed: %s' % (r['exit'], sorted(set(before) ^ set(after))[:6])
+                            else:
+                                bad = 'exit %s: %s' % (r['exit'], r['stderr'][-200:])
+                        elif {k: v[0] for k, v in after.items()} != {k: v[0] for k, v in want.items()} or after.get(rel) != want[rel]:
+                            bad = 'exit 0 but the source did not land at DEST/<its name>: extra %s missing %s' % (
+                                sorted(set(after) - set(want))[:5], sorted(set(want) - set(after))[:5])
+                        if bad:
+                            run.fail('%s: %s source named %r into a trailing-slash destination (%s, %s): %s' % (prop, sk, name, 'existing folder' if dest_exists else 'absent', placement, bad),
+                                     {'family': 'inside-names', 'name_hex': name.hex(), 'src_kind': sk, 'dest_exists': dest_exists, 'placement': placement,
+                                      'exit': r['exit'], 'stderr': r['stderr'][-400:], 'after': sorted(after)})
+                    finally:
+                        shutil.rmtree(root, ignore_errors=True)
+
+
 def run_spellings(run, binary, base, rng, n):
     """Relative paths, symlinked destination ancestors, several syncs in one spec file."""
     for i in range(n):
@@ -289,6 +355,7 @@ def check(run):
                 # remote placements: the command log is written by separate processes; traces are not compared
                 run.broke('correspondence', 'e2e-remote', json.dumps({'scenario': sc.to_json(), 'mismatch': o.mismatch})[:2500])
         run_table(run, binary, base)
+        run_inside_names(run, binary, base)
         run_spellings(run, binary, base, rng, 30 if quick else 2000)
         run_odd_times(run, binary, base, rng, 40 if quick else 3000)
         # spec files with several syncs over shared roots (A -> B, then B -> C, ...) against Model/SpecRun.v
